@@ -5,6 +5,7 @@ import PortusModel.Props.C08
 import PortusModel.Driver.Bkd
 import PortusModel.Driver.Ctl
 import PortusModel.Props.C06
+import PortusModel.Props.C10
 /-! `ORC <id> Cnn <input> <observed…>`: evaluate the property oracle `Cnn.check` on behaviour observed
 from the implementation. Answers `PASS` or `FAIL`. -/
 namespace Portus.Driver
@@ -145,5 +146,13 @@ def orcC06 (args : List String) : String :=
       passFail (C06.check sp r)
     | _, _ => "FAIL unparsable-observation"
   | _ => "BADARG"
+
+def orcC10 (args : List String) : String :=
+  match args with
+  | "OK" :: _ => passFail (C10.check (.ok ()))
+  | ["ERR"] => passFail (C10.check .err)
+  | ["PANIC"] => passFail (C10.check .panic)
+  | ["ABORT"] => passFail (C10.check .panic)
+  | _ => "FAIL unparsable-observation"
 
 end Portus.Driver
